@@ -153,15 +153,89 @@ func runQuotaGuard(c *core.Ctx) {
 		}
 	}
 	id := msg + ".SubscriptionID"
+	// the quota decision as a verdict helper of the per-connection value
+	// (`if v.tryOpen(msg.SubscriptionID, m.maxSubs) { forward } else { reject }`): the set logic is read
+	// in the helper — "false" is the rejecting way out, "true" the forwarding one — and the handler must
+	// reject exactly on the false verdict and forward exactly on the true one
+	var site *ssa.Call
+	var helperRej, helperFwd *ssa.Return
+	if msg == "" {
+		var host *ssa.Function
+		for _, fn := range P.ModFuncs {
+			if !strings.Contains(recvTypeName(fn), "MaxSubscriptions") || fn.Parent() != nil || fn == req {
+				continue
+			}
+			hm := ""
+			for _, p := range fn.Params {
+				if typeNameOf(p.Type()) == "ClientReqMsg" {
+					hm = "p:" + p.Name()
+				}
+			}
+			if cs := callsTo(fn, req); hm != "" && len(cs) == 1 {
+				host, site, msg = fn, cs[0], hm
+			}
+		}
+		if host == nil || req.Signature.Results().Len() != 1 {
+			c.Bad(nil, fname(c, req), "reject-set", P.Pos(req.Pos()), "the subscription set is updated outside a REQ handler and not by a verdict helper called from one")
+			return
+		}
+		id = ""
+		for i, a := range site.Call.Args {
+			if an.PathOf(a) == msg+".SubscriptionID" && i < len(req.Params) {
+				id = "p:" + req.Params[i].Name()
+			}
+		}
+		for _, rb := range an.ReturnBlocks(req) {
+			r := an.LastInstr(rb).(*ssa.Return)
+			switch rv := an.ReturnValues(r)[0]; {
+			case isConstBool(rv, false) && helperRej == nil:
+				helperRej = r
+			case isConstBool(rv, true) && helperFwd == nil:
+				helperFwd = r
+			default:
+				helperRej, helperFwd = nil, nil
+			}
+		}
+		okHost := helperRej != nil && helperFwd != nil
+		nRej, nFwd := 0, 0
+		for _, r := range classifyClientReturns(P, host, paramIdx(host, msg), 0) {
+			verdict, guarded := false, false
+			for _, g := range an.Guards(host, r.ret.Block()) {
+				if g.V == ssa.Value(site) {
+					verdict, guarded = g.True, true
+				}
+			}
+			switch r.kind {
+			case "reject":
+				nRej++
+				okHost = okHost && guarded && !verdict
+			case "forward":
+				nFwd++
+				okHost = okHost && guarded && verdict
+			default:
+				okHost = false
+			}
+		}
+		c.Check(okHost && nRej == 1 && nFwd == 1 && id != "", nil, fname(c, host), "verdict", P.Pos(site.Pos()),
+			"the REQ handler forwards exactly when "+req.Name()+"(id, N) answers true and rejects exactly when it answers false",
+			"the REQ handler does not follow the quota helper's verdict (reject on false, forward on true, called with the REQ's subscription id)")
+		if !okHost || id == "" {
+			return
+		}
+	}
 	c.Check(an.PathOf(mu.Key) == id && (isConstBool(mu.Value, true) || isEmptyStruct(mu.Value.Type())), nil, fname(c, req), "insert", P.Pos(mu.Pos()), "the REQ's subscription id is entered into the set", "the set is not keyed by the REQ's subscription id: "+an.PathOf(mu.Key))
 	// reject set
 	var rej, fwd *ssa.Return
-	for _, r := range classifyClientReturns(P, req, paramIdx(req, msg), 0) {
-		switch r.kind {
-		case "reject":
-			rej = r.ret
-		case "forward":
-			fwd = r.ret
+	if site != nil {
+		rej, fwd = helperRej, helperFwd
+	} else {
+		for _, r := range classifyClientReturns(P, req, paramIdx(req, msg), 0) {
+			switch r.kind {
+			case "reject":
+				rej = r.ret
+			case "forward":
+				fwd = r.ret
+			}
 		}
 	}
 	if rej == nil || fwd == nil {
@@ -175,6 +249,17 @@ func runQuotaGuard(c *core.Ctx) {
 	fr := an.SymFrame("len("+setPath+")", sym)
 	rs, n, _ := fr.ReachSet(req, rej.Block(), nil, nil)
 	c.CountPaths(n)
+	if site != nil && strings.HasPrefix(sym, "p:") {
+		// the limit is a parameter of the helper: what the handler passes for it
+		for i, q := range req.Params {
+			if "p:"+q.Name() == sym && i < len(site.Call.Args) {
+				sym = an.PathOf(site.Call.Args[i])
+				if rp := "p:" + site.Parent().Params[0].Name(); strings.HasPrefix(sym, rp+".") {
+					sym = "recv." + strings.TrimPrefix(sym, rp+".")
+				}
+			}
+		}
+	}
 	preCheck := false
 	// the same quota as a pre-check: `if !set[id] && len(set) >= N { reject }; set[id] = true` — a new id is
 	// refused when the set is already full, an id that is already open passes; nothing to take back
